@@ -828,3 +828,30 @@ def r6_ticks(ctx):
                     "traced rank no longer equals the loop bodies executed"
                     % (name, len(reg), len(inc), len(end)),
                     text_="%s ticks" % name)
+        # rows of the default ("iter") trace are what Compute.numIters counts:
+        # one row per executed loop body = addUse in the block of the yield
+        uses = [c for c in pat.calls(f, name="Metrics.addUse")
+                if pat.kwarg(c, "type_", 3) is None]
+        if name == "iterRange" and not uses:
+            ctx.bad("C15.R6", f, y, "iterRange no longer records a row of the "
+                    "iter trace per yield (no Metrics.addUse without type_): "
+                    "Compute.numIters reports 0 for every traced rank",
+                    text_="%s iter row" % name)
+        for c in uses:
+            top = enclosing_stmt(c)
+            for a in _anc(c):
+                if isinstance(a, ast.If) and parent_block(a) and \
+                        parent_block(a)[0] is parent_block(y)[0]:
+                    top = a
+            pb_u, pb_y = parent_block(top), parent_block(y)
+            if c in tick_calls("addUse") and pb_u and pb_y and \
+                    pb_u[0] is pb_y[0] and pb_u[1] < pb_y[1]:
+                ctx.ok("C15.R6", f, c, "one iter-trace row per yield (same "
+                       "block, in front of it)", text_="%s iter row" % name)
+            else:
+                ctx.bad("C15.R6", f, c, "%s: the iter-trace row is not recorded "
+                        "exactly once per yield (it is not in the block of the "
+                        "yield, in front of it, under `is_collecting and tick`): "
+                        "Compute.numIters / the iteration count of a traced "
+                        "rank differs from the loop bodies executed" % name,
+                        text_="%s iter row" % name)
